@@ -214,3 +214,9 @@ func c15R9(c *Ctx) {
 func c20R10(c *Ctx) {
 	shareRule(c, "C11.R2", "C20.R10", c11R2, "the recursion through loop steps hands the context on with nothing but the file being loaded taken out (the recognised visited-set form): a level that passes on only the files its own steps name loses the files of deeper levels, which direct preparation with the flat context finds")
 }
+
+// C17: annotating expression objects of the caller's parsed workflow is a write to memory that a running workflow
+// prepared from it reads without synchronisation.
+func c17R5(c *Ctx) {
+	shareRule(c, "C14.R8", "C17.R5", c14R8, "the prepare phase annotates only its own copies of the expression objects: a second preparation of the same parsed workflow does not write what a running workflow reads")
+}
